@@ -70,6 +70,8 @@ def plan(tier, seed):
             descs.append({"kind": "memo", "seed": seed, "batch": b, "n": mn, "cache": c})
     for b in range(npairs):
         descs.append({"kind": "pairs", "seed": seed, "batch": b, "n": nb})
+    for b in range(4 if tier == "quick" else 16):
+        descs.append({"kind": "large", "seed": seed, "batch": b})
     return descs
 
 
@@ -599,8 +601,120 @@ def run_memo(desc):
     return v.result(keys=[], sample=sample)
 
 
+def run_large(desc):
+    """Values around plausible size thresholds (a fast path for "large" inputs must keep the key a function of the VALUE):
+    for each large value an equal one built independently from fresh element objects (equal keys demanded) and one that
+    differs in a single element (unequal keys demanded); also through memoize."""
+    import numpy as np
+    from pipefunc.cache import memoize, to_hashable
+
+    v = VV()
+    rng = random.Random(f"c15/{desc['seed']}/large/{desc['batch']}")
+    sizes = [1000, 4096, 5000, 10000, 65536 + 3]
+    n = sizes[desc["batch"] % len(sizes)] if desc["batch"] < len(sizes) else rng.choice(sizes)
+
+    def fresh_elems(kind, k, salt=""):
+        if kind == "str":
+            return ["".join(["e", str(i), salt]) for i in range(k)]          # distinct objects every time
+        if kind == "int":
+            return [10 ** 6 + i for i in range(k)]                           # beyond the small-int cache
+        if kind == "tuple":
+            return [(i, "".join(["t", str(i % 7)])) for i in range(k)]
+        if kind == "list":
+            return [[i, i + 1] for i in range(k)]
+        raise M.HarnessBug(kind)
+
+    builders = []
+    for ek in ("str", "int", "tuple", "list"):
+        def obj_arr(ek=ek, change=None):
+            e = fresh_elems(ek, n)
+            if change is not None:
+                e[change] = {"str": "CHANGED", "int": -5, "tuple": (-1, "x"), "list": [-1, -1]}[ek]
+            a = np.empty(n, dtype=object)
+            for i, x in enumerate(e):
+                a[i] = x
+            return a
+        builders.append((f"ndarray-object[{ek}]", obj_arr))
+        if ek in ("str", "int", "tuple"):
+            def lst(ek=ek, change=None):
+                e = fresh_elems(ek, n)
+                if change is not None:
+                    e[change] = {"str": "CHANGED", "int": -5, "tuple": (-1, "x")}[ek]
+                return e
+            builders.append((f"list[{ek}]", lst))
+            builders.append((f"tuple[{ek}]", lambda ek=ek, change=None, lst=lst: tuple(lst(change=change))))
+    for dt in ("int64", "float64", "uint8", "bool", "<U6"):
+        def num(dt=dt, change=None):
+            a = (np.arange(n) % 251).astype(dt) if dt != "<U6" else np.array([f"s{i % 97}" for i in range(n)], dtype=dt)
+            if change is not None:
+                a = a.copy()
+                a[change] = (not a[change]) if dt == "bool" else ("zz" if dt == "<U6" else (a[change] + 1) % 250)
+            return a
+        builders.append((f"ndarray[{dt}]", num))
+    builders.append(("str", lambda change=None: "".join(("x" if i != change else "y") for i in range(n))))
+    builders.append(("bytes", lambda change=None: bytes((i % 251 if i != change else 255) for i in range(n))))
+    builders.append(("dict", lambda change=None: {f"k{i}": (i if i != change else -1) for i in range(n)}))
+    calls = []
+
+    @memoize()
+    def probe(x):
+        calls.append(1)
+        return len(calls)
+
+    for name, build in builders:
+        pos = rng.choice([0, n // 2, n - 1, rng.randrange(n)])
+        w = dict(kind=name, size=n, changed_position=pos)
+        try:
+            with warnings.catch_warnings():
+                warnings.simplefilter("ignore")
+                a, b, c = build(), build(), build(change=pos)
+                ka, kb, kc = to_hashable(a), to_hashable(b), to_hashable(c)
+                hash(ka), hash(kb), hash(kc)
+        except Exception as e:  # noqa: BLE001
+            v.bad(exc_sig(e, f"large:{name.split('[')[0]}"), f"to_hashable of a large {name} raised {exc_msg(e)}", **w)
+            continue
+        v.count("large_values_compared")
+        v.count(f"large:{name}")
+        if not keys_equal(ka, kb)[0]:
+            v.bad(f"unequal-keys-for-equal/large/{name}", f"two equal {name} of size {n} built independently get different keys", **w)
+        if keys_equal(ka, kc)[0]:
+            v.bad(f"equal-keys-for-unequal/large/{name}", f"{name} of size {n} differing in element {pos} get the same key", **w)
+        if name.startswith(("ndarray-object", "list", "dict")):
+            # in-place mutation of the SAME object: the key must follow the value
+            try:
+                if isinstance(a, dict):
+                    a[f"k{pos}"] = -1
+                elif name.startswith("ndarray-object[list]"):
+                    a[pos].append(99)   # the element object itself changes
+                    c = a
+                else:
+                    a[pos] = c[pos]
+                k2 = to_hashable(a)
+                v.count("large_in_place_mutations")
+                if keys_equal(ka, k2)[0]:
+                    v.bad(f"equal-keys-for-unequal/large-in-place/{name}", f"key of a {name} of size {n} unchanged after changing element {pos} in place", **w)
+            except Exception as e:  # noqa: BLE001
+                v.bad(exc_sig(e, f"large:{name.split('[')[0]}"), f"to_hashable of a large {name} raised {exc_msg(e)}", **w)
+        try:
+            with warnings.catch_warnings():
+                warnings.simplefilter("ignore")
+                x1, x2, x3 = build(), build(), build(change=pos)
+                r1 = probe(x1); n1 = len(calls)
+                r2 = probe(x2); n2 = len(calls)
+                r3 = probe(x3); n3 = len(calls)
+            v.count("large_memo_triples")
+            if r3 == r1 or n3 == n2:
+                v.bad(f"stale-hit/large/{name}", f"memoize returned the stored result for a {name} that differs in element {pos}", **w)
+        except Exception:  # noqa: BLE001  (memoize raising is judged by the memo streams)
+            pass
+    return v.result(keys=[f"large|{n}|{name}" for name, _ in builders], evaluations=len(builders),
+                    sample={"kind": "large", "size": n, "families": [b[0] for b in builders]} if desc["batch"] == 1 else None)
+
+
 def run_case(desc):
     warnings.simplefilter("ignore")
+    if desc["kind"] == "large":
+        return run_large(desc)
     if desc["kind"] == "pairs":
         return run_pairs(desc)
     if desc["kind"] == "xproc":
@@ -613,6 +727,8 @@ def run_case(desc):
 def finalize(agg, tier, seed):
     floors = []
     c = agg.counters
+    if c.get("large_values_compared", 0) < 40 or c.get("large:ndarray-object[str]", 0) < 3:
+        floors.append(f"only {c.get('large_values_compared', 0)} large values compared (< 40)")
     q = tier == "quick"
 
     def need(k, n):
